@@ -37,7 +37,7 @@ var c09Labels = []string{"a", "b", "example", "com", "www", "x-y", "a1", "-a", "
 
 // labels that are expected to survive (the relation is only interesting when hosts are accepted)
 var c09Good = []string{"a", "b", "example", "com", "www", "x-y", "a1", "-a", "a-", "a--b", "test", "a_b", "a!b", "a$b", "a&b", "a'b", "a(b)", "a*b", "a+b", "a,b", "a;b", "a=b", "a~b", "a{b}", "a\"b", "a`b",
-	"A", "ExAmPlE", "xn--nxasmq6b", "Xn--NxAsMq6b", "1a", "é", "ü", "ß", "ς", "σ", "日本", "a\u00adb", "ａ", "Ａ", "１x", "á", "ǆ", "ﬁ", "ı", "bücher", "ΑΒΓ", "straße", "e\u0301"}
+	"A", "ExAmPlE", "xn--nxasmq6b", "Xn--NxAsMq6b", "1a", "é", "ü", "ß", "ς", "σ", "日本", "a\u00adb", "ａ", "Ａ", "１x", "á", "ǆ", "ﬁ", "ı", "bücher", "ΑΒΓ", "straße", "e\u0301", "my-xn--test", "a-xn--b_c", "x~xn--y", "a_xn--b", "1-xn--1"}
 
 func c09Host(r *rand.Rand) string {
 	if r.IntN(8) == 0 && gen.C != nil {
